@@ -24,8 +24,11 @@ class Expecter(object):
         if index >= 0:
             spawn._buffer = spawn.buffer_type()
             spawn._buffer.write(window[searcher.end:])
-            spawn.before = spawn._before.getvalue()[
-                0:-(len(window) - searcher.start)]
+            before_all = spawn._before.getvalue()
+            # Not a negative slice index: a zero-width match at the very end
+            # of the window would give [0:-0], i.e. an empty 'before'.
+            spawn.before = before_all[
+                0:len(before_all) - (len(window) - searcher.start)]
             spawn._before = spawn.buffer_type()
             spawn._before.write(window[searcher.end:])
             spawn.after = window[searcher.start:searcher.end]
